@@ -1133,6 +1133,11 @@ def register_all(M):
             if len(x.items) != len(y.items):
                 return False
             return z_and([elem_eq(c, p, q) for p, q in zip(x.items, y.items)])
+        if isinstance(x, MapBuf) and isinstance(y, MapBuf):
+            # keys are pairwise distinct in each map: equal ⇔ same size and every entry of x is an entry of y
+            if len(x.entries) != len(y.entries):
+                return False
+            return z_and([z_or([z_and([elem_eq(c, k, k2), elem_eq(c, v, v2)]) for k2, v2 in y.entries]) for k, v in x.entries])
         if isinstance(x, SymEnum) or isinstance(y, SymEnum):
             from mir_exec import variant_index
             dx = x.disc if isinstance(x, SymEnum) else mk_int(variant_index(x.ty, x.variant), "isize")
@@ -1816,6 +1821,8 @@ def register_all(M):
             inner = M.elem_eq(c, x.fields[0], y.fields[0]) if x.fields[0] is not None and y.fields[0] is not None else False
             return sbool(z_or([neither, z_and([both, inner])]))
         return sbool(M.elem_eq(c, x, y))
+    M.add(r"<(?:BTreeMap|HashMap)<.*> as PartialEq>::eq", lambda c, m, a: sbool(M.elem_eq(c, a[0], a[1])))
+    M.add(r"<(?:BTreeMap|HashMap)<.*> as PartialEq>::ne", lambda c, m, a: sbool(z_not(M.elem_eq(c, a[0], a[1]))))
     M.add(r"<Option<.*> as PartialEq>::eq", opt_eq)
     M.add(r"<Option<.*> as PartialEq>::ne", lambda c, m, a: sbool(z_not(opt_eq(c, m, a).v)))
 
